@@ -155,6 +155,10 @@ def body_d(case, ctx):
     if len(chunks) > 1 and any(ch != chunks[0] for ch in chunks[1:]):
         r.label("misaligned_input_chunkings")
     p = case.get("params", {})
+    if fn == "hotspots":
+        vv = [v for row in case["rasters"][0]["data"] for v in row if not isinstance(v, str)]
+        if vv and min(vv) >= 1000:
+            r.label("hotspots_large_offset_small_spread")
     if "kernel" in p:
         kh, kw = len(p["kernel"]), len(p["kernel"][0])
         if kh != kw:
@@ -324,6 +328,14 @@ def focal_cases(draw, max_side):
             if len(set(flatv)) < 2:
                 ras["data"][0][0] = 1
                 ras["data"][-1][-1] = 5
+            # elevation-like data: a large offset with a small spread (global mean >> global std), where a numerically careless
+            # global reduction on one backend is far outside "float rounding"
+            off = draw(st.sampled_from([0, 0, 3000, 8000]))
+            if off and ras["dtype"] in ("float32", "float64", "int32", "int64", "int16", "uint16"):
+                ras["data"] = [[(v if isinstance(v, str) else (off + (v % 7 if isinstance(v, int) else max(-3.0, min(3.0, v))))) for v in row] for row in ras["data"]]
+                if len({v for row in ras["data"] for v in row if not isinstance(v, str)}) < 2:
+                    ras["data"][0][0] = off + 1
+                    ras["data"][-1][-1] = off + 5
         params["kernel"] = kernel
         if fn == "focal_apply":
             params["func"] = draw(st.sampled_from(APPLY_FUNCS))
